@@ -24,8 +24,10 @@ from typing import Any, Dict, List, Optional, Sequence, Tuple
 from vf import env
 
 KNOWN_PATH = env.VERIF / "known_findings.json"
-EVIDENCE_DIR = env.VERIF / "evidence"
-REPLAY_DIR = env.VERIF / "replays"
+# runs against a seeded (mutated) tree are pointed elsewhere (tools/seedtest.py), so that
+# they never overwrite the evidence of the unchanged tree
+EVIDENCE_DIR = pathlib.Path(os.environ.get("VERIF_EVIDENCE_DIR") or env.VERIF / "evidence")
+REPLAY_DIR = pathlib.Path(os.environ.get("VERIF_REPLAY_DIR") or env.VERIF / "replays")
 
 MAX_VIOLATION_LINES = 25
 
